@@ -746,7 +746,7 @@ func (c *Client) onPUBREC() error {
 	}
 	c.orderedTxs.Received++
 
-	err = c.write(nil, c.pendingAck)
+	err = c.writeBuffersNoWait(net.Buffers{c.pendingAck})
 	if err != nil {
 		return err // keeps pendingAck to retry
 	}
